@@ -1,5 +1,6 @@
 import Cppcheck.Model.MathLit
 import Cppcheck.Proofs.Trunc
+import Cppcheck.Model.ValueTypeConv
 /-
 Helper lemmas for C10: digit runs, the strtoull model on rendered literals, classification of rendered
 literals, and the converse direction (every accepted string is a rendered literal).
@@ -891,5 +892,93 @@ theorem suffix_spec (s : Str) : isValidIntegerSuffix s true = specSuffix s := by
   | a :: b :: c :: d :: e :: r =>
     simp only [isValidIntegerSuffix, sufRun, sufStep, specSuffix, isU, isL, isZ, isI]
     grind [sufAccept, sufRun, sufStep, sufRun_lit]
+
+theorem sufRun_lit_std : ∀ r, sufRun false .lit r = true := by
+  intro r; induction r with
+  | nil => rfl
+  | cons c r ih => simp [sufRun, sufStep, ih]
+
+theorem suffix_spec_std (s : Str) : isValidIntegerSuffix s false = specSuffixStd s := by
+  match s with
+  | [] => rfl
+  | [a] =>
+    simp only [isValidIntegerSuffix, sufRun, sufStep, specSuffixStd, isU, isL, isZ, isI]
+    grind [sufAccept]
+  | [a, b] =>
+    simp only [isValidIntegerSuffix, sufRun, sufStep, specSuffixStd, isU, isL, isZ, isI]
+    grind [sufAccept, sufRun, sufStep]
+  | [a, b, c] =>
+    simp only [isValidIntegerSuffix, sufRun, sufStep, specSuffixStd, isU, isL, isZ, isI]
+    grind [sufAccept, sufRun, sufStep, sufRun_lit_std]
+  | a :: b :: c :: d :: r =>
+    simp only [isValidIntegerSuffix, sufRun, sufStep, specSuffixStd, isU, isL, isZ, isI]
+    grind [sufAccept, sufRun, sufStep, sufRun_lit_std]
+
+/-! ## literal spelling → type (C09's model of `setValueTypeInTokenList`) → reported value -/
+
+open Cppcheck.ValueTypeConv in
+/-- bit count of the type the literal typing can choose -/
+def litBits (ib lb llb : Nat) : VType → Nat
+  | .int => ib | .long => lb | .llong => llb | _ => 0
+
+theorem maxValue_big {b : Nat} (h : 2 ^ 62 ≤ Cppcheck.ValueTypeConv.maxValue b) : 64 ≤ b := by
+  apply Classical.byContradiction
+  intro hb
+  have hb' : b < 64 := by omega
+  have : ¬ (b ≥ 64) := by omega
+  simp only [Cppcheck.ValueTypeConv.maxValue, this, if_false] at h
+  have : 2 ^ (b - 1) ≤ 2 ^ 62 := Nat.pow_le_pow_right (by decide) (by omega)
+  omega
+
+theorem maxValue_le (b : Nat) : Cppcheck.ValueTypeConv.maxValue b ≤ 2 ^ 63 - 1 := by
+  simp only [Cppcheck.ValueTypeConv.maxValue]
+  split
+  · exact Nat.le_refl _
+  · rename_i h
+    have : 2 ^ (b - 1) ≤ 2 ^ 63 := Nat.pow_le_pow_right (by decide) (by omega)
+    omega
+
+open Cppcheck.ValueTypeConv in
+/-- a literal that bigint cannot hold as a non-negative number is typed unsigned with 64 bits (given 64-bit `long long`) -/
+theorem litType_large (ib lb : Nat) (hib : ib ≤ 64) (hlb : lb ≤ 64) (dec us : Bool) (longs m : Nat)
+    (h1 : 2 ^ 63 ≤ m) (h2 : m < 2 ^ 64) :
+    (litTypeCore (maxValue ib) (maxValue lb) (maxValue 64) dec us longs m).sign = .unsigned ∧
+    litBits ib lb 64 (litTypeCore (maxValue ib) (maxValue lb) (maxValue 64) dec us longs m).type = 64 := by
+  have e1 : m >>> 1 = m / 2 := by simp [Nat.shiftRight_eq_div_pow]
+  have hi := maxValue_le ib
+  have hl := maxValue_le lb
+  have hhalf : 2 ^ 62 ≤ m / 2 := by omega
+  have bigI : m / 2 ≤ maxValue ib → ib = 64 := fun h => by have := maxValue_big (b := ib) (by omega); omega
+  have bigL : m / 2 ≤ maxValue lb → lb = 64 := fun h => by have := maxValue_big (b := lb) (by omega); omega
+  have h64 : maxValue 64 = 2 ^ 63 - 1 := by simp [maxValue]
+  unfold litTypeCore
+  simp only [e1, h64]
+  cases us with
+  | true =>
+    simp only [if_true]
+    split
+    · rename_i h; exact ⟨rfl, by simp [litBits, bigI h.2]⟩
+    · split
+      · rename_i h; exact ⟨rfl, by simp [litBits, bigI h.2.2]⟩
+      · split
+        · rename_i h; exact ⟨rfl, by simp [litBits, bigL h.2]⟩
+        · split
+          · rename_i h; exact ⟨rfl, by simp [litBits, bigL h.2.2]⟩
+          · split
+            · exact ⟨rfl, rfl⟩
+            · exact ⟨rfl, rfl⟩
+  | false =>
+    simp only [Bool.false_eq_true, if_false]
+    split
+    · rename_i h; omega
+    · split
+      · rename_i h; exact ⟨rfl, by simp [litBits, bigI h.2.2]⟩
+      · split
+        · rename_i h; omega
+        · split
+          · rename_i h; exact ⟨rfl, by simp [litBits, bigL h.2.2]⟩
+          · split
+            · rename_i h; omega
+            · exact ⟨rfl, rfl⟩
 
 end Cppcheck.MathLit
